@@ -148,6 +148,19 @@ fn json_form_cases() -> Vec<String> {
             out.push(json!({"protected": prot, "payload": pay, "signature": s, "disclosures": [d]}).to_string());
         }
     }
+    // members outside the five known ones, with every structured value: the General JWS JSON Serialization
+    // ("signatures"), the unprotected "header", and look-alikes
+    let sig_entry = json!({"protected": h, "signature": s});
+    let extra_vals = [json!([]), json!([{}]), json!([sig_entry.clone()]), json!([sig_entry.clone(), sig_entry.clone()]), json!({}), json!({"disclosures": [d], "kb_jwt": "x"}), json!({"disclosures": "x"}), json!("x"), Value::Null, json!(0), json!([[]]), json!([null])];
+    for name in ["signatures", "header", "unprotected", "disclosure", "kb", "jwt", "_sd"] {
+        for v in &extra_vals {
+            for core in [json!({"protected": h, "payload": p, "signature": s, "disclosures": [d]}), json!({"payload": p, "disclosures": [d]}), json!({"payload": p}), json!({})] {
+                let mut m = core.as_object().unwrap().clone();
+                m.insert(name.to_string(), v.clone());
+                out.push(Value::Object(m).to_string());
+            }
+        }
+    }
     for t in ["", "null", "[]", "0", "\"x\"", "{", "{}", "[{}]", "{\"protected\":", "\u{0}", "{\"payload\":\"\\ud800\"}"] {
         out.push(t.to_string());
     }
